@@ -546,12 +546,14 @@ package graphql
 
 // Error bookkeeping: AddError records exactly one presented error for a non-nil error and nothing for nil.
 //@ func AddError [C01]
+//@   safe
 //@   ensures err == nil ==> calls(errorPresenter) == 0 && calls(getResponseContext) == 0
 //@   ensures err != nil ==> calls(errorPresenter) == 1 && calls(ErrorOnPath) == 1 && calls(Lock) == 1 && calls(Unlock) == 1
 //@   at `c.errorPresenter(ctx, ErrorOnPath(ctx, err))` requires true
 // ErrorOnPath: nil stays nil, anything else comes back non-nil; the only thing it may write is the Path of a
 // graphql error that had none.
 //@ func ErrorOnPath [C01]
+//@   assumenopanic an error value of dynamic type *gqlerror.Error holds a non-nil pointer
 //@   ensures err == nil ==> res0 == nil
 //@   ensures err != nil ==> res0 != nil
 //@   at `assign gqlErr.Path` requires gqlErr.Path == nil
